@@ -140,6 +140,22 @@ func vHasPrefix(a, p []byte) bool  { return len(a) >= len(p) && string(a[:len(p)
 func vInstantiate(i int)           {}
 func vNote(s string)               {}
 func vSymbolic() bool              { return false }
+func vAll(c ...bool) bool {
+	for _, x := range c {
+		if !x {
+			return false
+		}
+	}
+	return true
+}
+func vAny(c ...bool) bool {
+	for _, x := range c {
+		if x {
+			return true
+		}
+	}
+	return false
+}
 
 // vRunReplay executes the cases listed in $VERIF_REPLAY_CASES and prints one
 // result line per case.
